@@ -16,7 +16,19 @@ def prof(base, moves, depth, srcs=None, heaps="SrcHeapsCore", **kw):
     return p
 
 
+def prof2(moves, depth, pairs, **kw):
+    p = dict(base="MC_Heap", overrides=dict(Moves=moves, SrcHeaps="SrcHeapsPair"),
+             defs=dict(MaxDepth=depth, SrcPairs=pairs),
+             invariants=["ScopeWF"], properties=MODEL_PROPS, timeout=kw.pop("timeout", 600))
+    p.update(kw)
+    return p
+
+
 PROFILES = {
+    "join2": prof2("MovesJoin", 2, [[1, 2], [1, 4], [4, 2], [6, 2]]),
+    "join3": prof2("MovesJoin", 3, [[1, 2], [6, 2]]),
+    "union2": prof2("MovesUnion", 2, [[1, 3], [1, 4], [3, 1], [4, 4]]),
+    "union3": prof2("MovesUnion", 3, [[1, 3], [3, 6]]),
     "core2": prof("MC_Core", "MovesCore", 2),
     "core3": prof("MC_Core", "MovesCore", 3, srcs=[1, 6]),
     "agg3": prof("MC_Focus", "MovesAgg", 3),
@@ -28,7 +40,32 @@ PROFILES = {
 
 GEN_CLAUSES_SPEC = {"names", "rows", "order", "accept", "export-error", "group"}
 
+CROSS = {"cross-names", "cross-rows", "cross-order"}
+SUBQ = {"alias-unblocks", "polars-subquery", "never-needs"}
+
 CHECKS = {
+    "C01": dict(
+        level="model_checking",
+        clauses=CROSS | {"accept", "export-error"},
+        phases=dict(quick=[dict(profile="core2"), dict(profile="agg3"), dict(profile="wins3")],
+                    thorough=[dict(profile="core3"), dict(profile="agg3"), dict(profile="win3"), dict(profile="wins4")]),
+    ),
+    "C06": dict(
+        level="model_checking",
+        clauses=GEN_CLAUSES_SPEC | {"errclass"},
+        phases=dict(quick=[dict(profile="join2")], thorough=[dict(profile="join2"), dict(profile="join3")]),
+    ),
+    "C07": dict(
+        level="model_checking",
+        clauses=GEN_CLAUSES_SPEC | {"errclass"},
+        phases=dict(quick=[dict(profile="union2")], thorough=[dict(profile="union2"), dict(profile="union3")]),
+    ),
+    "C08": dict(
+        level="model_checking",
+        clauses=SUBQ | {"rows", "order", "names", "export-error", "accept"}, backends={"sqlite"},
+        phases=dict(quick=[dict(profile="wins3"), dict(profile="agg3")],
+                    thorough=[dict(profile="wins4"), dict(profile="agg3"), dict(profile="win3")]),
+    ),
     "C02": dict(
         level="model_checking",
         clauses=GEN_CLAUSES_SPEC,
